@@ -20,7 +20,8 @@ What is PROVED here (writer side + one header line; all over every input of the 
   the same mnemonic, unit and description (and the same value when the value is kept as text): no field migrates;
 * `C11_write_idempotent`   writing the same object again gives the same text (re-export of `C16_idempotent`).
 
-What is NOT proved: the statement over whole files ("for any input that lasio can read and then write").  There is no
+What is proved in Props/C11File.lean: the whole-file HEADER fixed point (C11_file_fixed_point, C11_file_iterate).
+What is NOT proved: the statement over whole files including the data section and the refresh of STRT/STOP/STEP ("for any input that lasio can read and then write").  There is no
 whole-file reader model composed with `strtod`, `num()` and `str()` of the re-read numbers; non-conformant lines (the property's
 "odd units", blank mnemonics, colons) are outside `C03_item`.  That part is covered by the oracle and the correspondence of
 harness/props/c11.py only.
